@@ -88,3 +88,5 @@ package corebgp
 //@ chaninv peer.transitionCh(v) = v.to <= 6 && v.from <= 6 && (v.to == 5 ==> v.from == 4)
 //@ chaninv peer.inConnCh(c) = c != nil
 //@ chaninv peer.errorCh(e) = e != nil && (hasType(e, *notificationError) ==> firstOf(e, *notificationError) != nil && firstOf(e, *notificationError).notification != nil)
+// encoded capability list: cap k starts at offs[k] in bytes v
+//@ pure encCapOK(v, o, cap) = 0 <= o && o + 2 + len(cap.Value) <= len(v) && v[o] == cap.Code && v[o+1] == len(cap.Value) && (forall i :: 0 <= i && i < len(cap.Value) ==> v[o+2+i] == cap.Value[i])
